@@ -221,22 +221,29 @@ structure Trace where
   outs : List SolveOutcome
   posts : List Bool
   nsolved : Nat
+  /-- how often an empty stream was asked (then: clock unchanged / converged / no change) -/
+  starved : Nat
   deriving Repr, Inhabited
 
 def traceWorld : World Trace Nat Nat where
   presolve := fun w t _ _ =>
     match w.pres with
-    | [] => (w, t)
+    | [] => ({ w with starved := w.starved + 1 }, t)
     | x :: r => ({ w with pres := r }, x)
   solve := fun w _ _ =>
     match w.outs with
-    | [] => ({ w with nsolved := w.nsolved + 1 }, .converged)
+    | [] => ({ w with nsolved := w.nsolved + 1, starved := w.starved + 1 }, .converged)
     | o :: r => ({ w with outs := r, nsolved := w.nsolved + 1 }, o)
   post := fun w =>
     match w.posts with
-    | [] => (w, false)
+    | [] => ({ w with starved := w.starved + 1 }, false)
     | b :: r => ({ w with posts := r }, b)
   nodeRow := fun w => w.nsolved
   linkRow := fun w => w.nsolved
+
+/-- `iter` that stops looking once the loop has been left (what the driver executes; `= iter`, Lemmas/RunLoop) -/
+def runTo (wd : World W RN RL) (cfg : Cfg) : Nat → St W RN RL → St W RN RL
+  | 0, s => s
+  | n + 1, s => if s.halt.isSome then s else runTo wd cfg n (step wd cfg s)
 
 end Wntr.RunLoop
